@@ -43,7 +43,7 @@ def check_C16(tier, t0):
     n_sweep = len(eb.sweep_cases())
     sweep, _ = core.run_batch(eb.make_engine, {"seed": seed, "mode": "sweep"}, n_sweep, 64, bud)
     # bounded sequence sweep: every answer sequence of length <= L over an 8-class alphabet at every metric
-    max_len = 2 if tier == "quick" else 4
+    max_len = 2 if tier == "quick" else 3
     n_seq = len(eb.seq_cases(max_len))
     seq, seq_info = core.run_batch(eb.make_engine, {"seed": seed, "mode": "seqsweep", "max_len": max_len}, n_seq, 500, bud)
     for v in seq.violations.values():
@@ -67,8 +67,9 @@ def check_C16(tier, t0):
         "sweep_e": {"cases": n_sweep, "executed": sweep_done, "exhaustive": sweep_done == n_sweep,
                     "what": "every (version, metric, legal value, spelling in canonical/lower/upper, plus the empty answer for Not Defined)"},
         "sequence_sweep": {"cases": n_seq, "executed": n_seq_done, "exhaustive": n_seq_done == n_seq, "max_length": max_len,
-                           "what": "every answer sequence of length 1..max_length over an 8-class alphabet (legal-first, legal-last-lower, "
-                                   "empty, garbage, prefix-or-doubled, other-metric-value, padded-legal, wrong-not-defined) served at "
+                           "what": "every answer sequence of length 1..max_length over a 13-class alphabet (legal-first, legal-last-lower, "
+                                   "empty, garbage, prefix-or-doubled, other-metric-value, padded-legal, wrong-not-defined, (legal), legal., "
+                                   "value name, legal + second word, legal in mixed case) served at "
                                    "every metric of every version while its question is repeated"},
         "faults_fired": dict((k, v) for k, v in total.counters.items() if k.startswith("fault.")),
         "probes": dict((k, v) for k, v in total.counters.items() if k.startswith("probe.")),
@@ -247,7 +248,7 @@ def _c19_batch(tier, seed, n, bud, sweeps=False):
         # k-th pre-emption point, by a complete op B -- every k (thorough) or every stride-th k (quick)
         info["sweeps"] = {}
         for gran, stride, coarse in (("line", 1 if tier == "thorough" else 3, 1 if tier == "thorough" else 4),
-                                     ("instruction", 1 if tier == "thorough" else 6, 4 if tier == "thorough" else 8)):
+                                     ("instruction", 1 if tier == "thorough" else 6, 2)):
             params = {"seed": seed, "mode": "sweep", "granularity": gran, "stride": stride, "offset": seed, "coarse": coarse}
             eng = es.make_engine(**params)
             size = eng.sweep_size()
@@ -277,7 +278,7 @@ def check_C19(tier, t0):
     import time
 
     seed = core.verif_seed()
-    n = scale(2000 if tier == "quick" else 30000)  # per hash seed
+    n = scale(1500 if tier == "quick" else 30000)  # per hash seed
     bud = budget(200 if tier == "quick" else 1200)
     partial = os.environ.get("CVSSSIM_C19_PARTIAL")
     if partial:
